@@ -105,7 +105,7 @@ Qed.
 
 Theorem SInv_step e S K M vj : J S K (m_g M) -> SInv M -> wf3_ev e M vj -> SInv (mstep e M vj).
 Proof.
-  intros HJ [HN HP HC] [Hwf2 Hwf]. destruct vj as [[v l] js]. cbn [fst snd] in *. destruct v as [x|x].
+  intros HJ [HN HP HC] Hwf0. pose proof Hwf0 as [Hwf2 Hwf]. destruct vj as [[v l] js]. unfold wf3_ev, wf3x_ev, msg_ev in *. cbn [fst snd] in *. destruct v as [x|x].
   - (* A moves *)
     destruct Hwf2 as [Hop _]. apply ev_open2_eq in Hop.
     pose proof HJ as [HA HAB _ _ _ _ _ _].
@@ -143,6 +143,20 @@ Proof.
     constructor; unfold CInv; cbn [m_g m_sent g_net g_AB g_nA nstep]; rewrite ?E; cbn [nA]; assumption.
 Qed.
 
+(* what the sender's invariant says of a registered user callback: the datagram carries an APP
+   message whose payload is the one passed to send() with that callback id *)
+Theorem custody_meaning M i dA ks k id :
+  SInv M -> In (i, dA) (g_AB (m_g M)) -> g_nA (m_g M) - i < RING - 1 ->
+  dget (wire i) (c_pcbs (nA (g_net (m_g M)))) = Some ks -> In k ks -> cb_user k id ->
+  exists w, In w (dg_msgs dA) /\ w_type w = APP /\ In (w_payload w, id) (m_sent M).
+Proof.
+  intros [_ _ HC] HAB Hrec Hg Hk Hu. destruct (HC i dA ks k HAB Hrec Hg Hk) as (m & [_ Hq] & Hcb & Hm).
+  rewrite Hcb in Hq. exists (wmsg_of m). split; [exact Hm|]. cbn [wmsg_of w_type w_payload].
+  destruct k as [i0|rid mseq ty p0 i0]; cbn [cb_user] in Hu.
+  - destruct i0; try destruct Hu. cbn in Hq. exact Hq.
+  - destruct Hq as (_ & Q2 & Q3 & _ & Q5). rewrite Q2, Q3. destruct i0; try destruct Hu. cbn in Q5. exact Q5.
+Qed.
+
 (* ---------- the receiver's invariant over the joint ghost ---------- *)
 Record BInv (M : mnet) : Prop := {
   b_W : W 256 (c_bf_msg (nB (g_net (m_g M)))) (fst (m_st M));
@@ -156,14 +170,14 @@ Proof. induction a as [|x a IH]; [reflexivity|exact IH]. Qed.
 
 Theorem BInv_step e M vj : BInv M -> wf3_ev e M vj -> BInv (mstep e M vj).
 Proof.
-  intros [HW Hrec HD Hacc] [Hwf2 Hwf]. destruct vj as [[v l] js]. cbn [fst snd] in *. destruct v as [x|x].
+  intros [HW Hrec HD Hacc] Hwf0. pose proof Hwf0 as [Hwf2 Hwf]. destruct vj as [[v l] js]. unfold wf3_ev, wf3x_ev, msg_ev in *. cbn [fst snd] in *. destruct v as [x|x].
   - unfold mstep. cbn [fst snd gstep m_g m_sent m_st].
     destruct (step e (nA (g_net (m_g M))) x) as [a' o] eqn:E.
     constructor; cbn [m_g m_st g_net g_accB nstep]; rewrite ?E; cbn [nB dlvB]; assumption.
   - unfold mstep. cbn [fst snd gstep m_g m_sent m_st].
     destruct (step e (nB (g_net (m_g M))) x) as [b' o] eqn:E. cbn [snd] in Hwf.
     destruct (accepts (nB (g_net (m_g M))) x) as [d|] eqn:Ea.
-    + destruct (Hwf d eq_refl) as (Hlen & Hm & Hnr).
+    + destruct (Hwf d eq_refl) as (Hlen & Hm & Hnr). specialize (Hnr eq_refl).
       destruct (step_accept_msgs _ _ _ _ _ _ E Ea Hnr) as (Hrx & c1 & now & orcs & c2 & o2 & B1 & I1 & Er & Hnr2 & B2 & I2).
       rewrite <- B1 in HW.
       destruct (recv_msgs_deliver _ _ _ _ _ _ _ _ Hlen HW Hrec Hm Er Hnr2) as (HW' & Hrec' & extra & Hinc & C2 & C3).
@@ -227,11 +241,31 @@ Proof.
   destruct Hwf as [W1 W2]. apply IH; [exact He|apply J3_step; assumption|exact W2].
 Qed.
 
+Lemma wf3x_run_split b e vs : forall M, wf3x_run b e M vs <-> wf2_run e (m_g M) (map fst vs) /\ msg_run b e M vs.
+Proof.
+  induction vs as [|v r IH]; intros M; cbn [wf3x_run wf2_run msg_run map]; [tauto|].
+  rewrite IH. unfold wf3x_ev. cbn [mstep m_g]. tauto.
+Qed.
+
 Lemma wf3_run_app e vs : forall M ws, wf3_run e M (vs ++ ws) <-> wf3_run e M vs /\ wf3_run e (mrun e M vs) ws.
 Proof.
-  induction vs as [|v r IH]; intros M ws; cbn [app wf3_run mrun fold_left]; [tauto|].
+  unfold wf3_run. induction vs as [|v r IH]; intros M ws; cbn [app wf3x_run mrun fold_left]; [tauto|].
   rewrite IH. unfold mrun. tauto.
 Qed.
+
+(* replacing B by a connection with the same two receive windows keeps the invariant *)
+Lemma J3_with_B S K M b :
+  c_bf_pkt b = c_bf_pkt (nB (g_net (m_g M))) -> c_bf_msg b = c_bf_msg (nB (g_net (m_g M))) ->
+  J3 S K M -> J3 S K (with_B M b).
+Proof.
+  intros E1 E2 [[HA HAB HND HABw HB Hacc HBA HBAw] HI [HN HP HC] [HW Hrec HD Hacc2]].
+  constructor; [constructor|exact HI|constructor|constructor]; cbn; try assumption.
+  - unfold GI in *. rewrite E1. exact HB.
+  - rewrite E2. exact HW.
+Qed.
+
+Lemma J3_with_B_status S K M st : J3 S K M -> J3 S K (with_B M ((nB (g_net (m_g M))) <| c_status := st |>)).
+Proof. apply J3_with_B; reflexivity. Qed.
 
 (* ---------- the datagram level with the index known to be recent ---------- *)
 Lemma acked_recent S K G x l a0 d :
